@@ -36,6 +36,11 @@ META = {
             "driver; harness/c10_impl.cpp; hooks IORA_VERIF_YIELD(\"bq.put.*\"/\"bq.take.*\") in the wait predicates.",
 }
 
+# ---- additions of the translator / tie session (appended to the manifest texts)
+META["text"] += " Since the translator exists: the atomic accesses, memory orders and slot accesses of every ring method and the lock / wait / notify / mutation order of every BlockingQueue method are read off clang's AST of the CURRENT headers on every run (coq/Gen/RingProto.v, coq/Gen/QueueShape.v); C10/GenTie.v proves that the generated sequences follow the model's step protocols with acquire / release on both index pairs and that close() takes the mutex between the flag and notify_all, and instantiates the race-freedom and no-lost-wake-up theorems with the switches read off the source."
+META["note"] += " Translator (tools/translate.py: clang -ast-dump=json + a Python walker) is trusted for the generated facts; its shape checks are syntactic (program order of the source text, one slot event per subscript expression)."
+META["technique"] = 'Coq proof (invariants over all interleavings; model switches instantiated from facts the translator regenerates from the source on every run) + differential correspondence + TSan stress'
+
 
 def gen_ring(rng):
     cap = rng.choice([1, 2, 4, 8])
